@@ -27,7 +27,7 @@ import (
 type Step struct {
 	API     string          `json:"api"` // "send" (Send + receive per expected reply) | "call" (Connection.Call) | "upgrade" (Connection.Upgrade)
 	Method  string          `json:"method"`
-	Params  json.RawMessage `json:"params,omitempty"` // nil = no parameters
+	Params  json.RawMessage `json:"params,omitempty"`  // nil = no parameters
 	Decoded bool            `json:"decoded,omitempty"` // pass parameters as a decoded Go value (json.Number leaves) instead of json.RawMessage
 	More    bool            `json:"more,omitempty"`
 	Oneway  bool            `json:"oneway,omitempty"`
